@@ -20,6 +20,8 @@ int __real_clock_gettime(clockid_t, struct timespec*);
 int __real_usleep(useconds_t);
 int __real_sched_yield(void);
 int __real_pthread_mutex_init(pthread_mutex_t*, const pthread_mutexattr_t*);
+int __real_pthread_mutexattr_init(pthread_mutexattr_t*);
+int __real_pthread_mutexattr_settype(pthread_mutexattr_t*, int);
 int __real_pthread_mutex_lock(pthread_mutex_t*);
 int __real_pthread_mutex_trylock(pthread_mutex_t*);
 int __real_pthread_mutex_unlock(pthread_mutex_t*);
@@ -342,7 +344,11 @@ int __wrap_clock_gettime(clockid_t id, struct timespec* ts) {
   return 0;
 }
 
+// attribute objects may be shared between constructing threads: their initialisation is a scheduling point as well
+int __wrap_pthread_mutexattr_init(pthread_mutexattr_t* a) { if (g_active && tl_id >= 0) yieldPoint(); return __real_pthread_mutexattr_init(a); }
+int __wrap_pthread_mutexattr_settype(pthread_mutexattr_t* a, int k) { if (g_active && tl_id >= 0) yieldPoint(); return __real_pthread_mutexattr_settype(a, k); }
 int __wrap_pthread_mutex_init(pthread_mutex_t* m, const pthread_mutexattr_t* a) {
+  if (g_active && tl_id >= 0) yieldPoint();
   int rc = __real_pthread_mutex_init(m, a);
   if (!g_active) return rc;
   M* mm = findM(m, false); if (mm) mm->destroyed = true;
